@@ -233,3 +233,56 @@ Proof.
     + apply (rect_len _ _ _ (Hch x Hx)).
     + apply (rect_Forall _ _ _ (Hch x Hx)).
 Qed.
+
+(* ---------------- ResizingOperator (C16) ---------------- *)
+From Verif Require C16.Syntax Gen.Padding C16.Model C16.ModelNd C16.PNd C16.PNd3.
+
+Lemma config_ok_len (rm : C16.Syntax.pmode) ish osh offs : C16.ModelNd.config_ok rm ish osh offs = true ->
+  length ish = length osh /\ length ish = length offs.
+Proof.
+  revert osh offs; induction ish as [|n ish IH]; intros [|n' osh] [|off offs] Hc; cbn in Hc; try discriminate; auto.
+  apply andb_true_iff in Hc; destruct Hc as [_ Hc]. destruct (IH _ _ Hc). cbn; split; lia.
+Qed.
+
+(* the separable resize and the separable adjoint resize (axes in reverse order) are adjoint for EVERY
+   admissible configuration: any number of axes, growing in some and shrinking in others *)
+Lemma resize_sep_adj_pair (c : R) (rm : C16.Syntax.pmode) ish osh offs :
+  C16.ModelNd.config_ok rm ish osh offs = true ->
+  adj_pair (repeat c (prodn ish)) (repeat c (prodn osh))
+    (C16.ModelNd.sep_loop rm C16.Syntax.Forward 0 true 1 ish osh offs)
+    (C16.ModelNd.sep_rev_loop rm C16.Syntax.Adjoint 0 true 1 ish osh offs).
+Proof.
+  intros Hc. destruct (config_ok_len _ _ _ _ Hc) as [L1 L2].
+  split; [|split]; rewrite ?repeat_length.
+  - intros x Hx. rewrite C16.PNd3.sep_loop_length by (try assumption; lia). lia.
+  - intros y Hy. rewrite C16.PNd.sep_rev_length by (try assumption; lia). lia.
+  - intros x y Hx Hy.
+    rewrite !cinner_const_R;
+      [| assumption | rewrite C16.PNd3.sep_loop_length by (try assumption; lia); lia].
+    rewrite (C16.PNd.sep_adjoint rm 1 ish osh offs x y) by (try assumption; lia). reflexivity.
+Qed.
+
+(* ResizingOperator and the operator the code returns as its adjoint (same axis order, axis 0 first):
+   at most one axis is resized *)
+Lemma leaf_ok_resize (c : R) (rm : C16.Syntax.pmode) ish osh offs :
+  C16.ModelNd.config_ok rm ish osh offs = true -> C16.PNd3.at_most_one ish osh offs = true ->
+  leaf_ok (LResize (repeat c (prodn ish)) (repeat c (prodn osh)) rm ish osh offs) /\
+  leaf_ok (LResizeAdj (repeat c (prodn osh)) (repeat c (prodn ish)) rm ish osh offs).
+Proof.
+  intros Hc H1. destruct (config_ok_len _ _ _ _ Hc) as [L1 L2].
+  assert (Hp : adj_pair (repeat c (prodn ish)) (repeat c (prodn osh))
+                 (eval_leaf (LResize (repeat c (prodn ish)) (repeat c (prodn osh)) rm ish osh offs))
+                 (eval_leaf (LResizeAdj (repeat c (prodn osh)) (repeat c (prodn ish)) rm ish osh offs))).
+  { split; [|split]; rewrite ?repeat_length.
+    - intros x Hx. cbn [eval_leaf]. change (@nzero R Num_R) with 0.
+      rewrite C16.PNd3.sep_loop_length by (try assumption; lia). lia.
+    - intros y Hy. cbn [eval_leaf]. change (@nzero R Num_R) with 0.
+      rewrite C16.PNd3.sep_loop_length by (try lia). lia.
+    - intros x y Hx Hy. cbn [eval_leaf]. change (@nzero R Num_R) with 0.
+      rewrite !cinner_const_R;
+        [| assumption | rewrite C16.PNd3.sep_loop_length by (try assumption; lia); lia].
+      rewrite (C16.PNd3.sep_adjoint_single_axis rm 1 ish osh offs x y) by (try assumption; lia). reflexivity. }
+  split; (split; [|split; reflexivity]); cbn [leaf_dom leaf_ran leaf_adjoint].
+  - exact Hp.
+  - apply (adj_pair_sym cring_ok_R); [apply vconj_R | apply vconj_R | exact Hp].
+Qed.
